@@ -83,8 +83,13 @@ def main():
     finally:
         sh(["git", "-C", REPO, "worktree", "remove", "--force", wt])
         shutil.rmtree(wt, ignore_errors=True)
-        # restore generated files / build for the real tree
-        sh([sys.executable, os.path.join(ROOT, "harness", "translate.py")], cwd=ROOT)
+        # restore generated files for the real tree (under the checks' lock: another seed test may be running)
+        import fcntl
+        os.makedirs(os.path.join(ROOT, ".work"), exist_ok=True)
+        with open(os.path.join(ROOT, ".work", "lock"), "w") as lf:
+            fcntl.flock(lf, fcntl.LOCK_EX)
+            sh([sys.executable, os.path.join(ROOT, "harness", "translate.py")], cwd=ROOT)
+            fcntl.flock(lf, fcntl.LOCK_UN)
 
 
 def finish(seed, res, rc):
